@@ -587,3 +587,47 @@ def rule_arm_globals(ctx, files=("hdf/src/dfan.c",)):
             ctx.holds("ARMGLOBAL", key, "-", "`%s` is only ever assigned, never stepped relative to its old value" % g, nontrivial=True)
     ctx.floor("ARMGLOBAL", 2, n, "(per-kind cursor variables selected by a kind test)")
     return n
+
+
+def rule_rewrite_reuses_element(ctx):
+    """REUSEOLD (C11): rewriting an annotation keeps its tag/ref (its identity) but not its storage: DFANIputann and ANIwriteann call
+    HDreuse_tagref, which detaches the old data so that the following write allocates an element of the *new* length.  Whether
+    that happens may depend only on whether the annotation already exists in the file (the routine's new/existing flag) — not on
+    the lengths involved: an existing annotation that is overwritten in place keeps its old length in the descriptor, so a
+    shorter text comes back with the tail of the old one.  The condition of the `if` that contains the call must mention that
+    one flag and nothing else (no call, no second variable), and the routine must not write before it."""
+    from .facts import calls_in
+    prog = ctx.prog
+    n = 0
+    for f in prog.lib_funcs():
+        if not f.rel.endswith(("hdf/src/dfan.c", "hdf/src/mfan.c")) or not f.raw.get("ast"):
+            continue
+        if not any(c[1] == "HDreuse_tagref" for _b, _i, _s, c in f.calls()):
+            continue
+        found = []
+
+        def vis(nd, st):
+            exprs = [nd[1]] if nd[0] in ("s", "if") and nd[1] is not None else []
+            for e in exprs:
+                if any(c[1] == "HDreuse_tagref" for c in calls_in(e, True)):
+                    guards = [s_ for s_ in st if s_[0] == "if" and not any(c[1] == "HDreuse_tagref" for c in calls_in(s_[1], True))]
+                    found.append((nd, guards))
+            return True
+
+        ast_walk(f.raw["ast"], vis)
+        for nd, guards in found[:1]:
+            n += 1
+            key = "REUSEOLD:%s" % f.name
+            line = nd[-3] if isinstance(nd[-3], int) else f.line
+            if not guards:
+                ctx.holds("REUSEOLD", key, f.where(line), "HDreuse_tagref is called unconditionally", nontrivial=True)
+                continue
+            g = guards[-1]
+            vars_ = {x[1] for x in walk(g[1], True) if x[0] == "var"}
+            calls = [c[1] for c in calls_in(g[1], True)]
+            if len(vars_) == 1 and not calls and len(guards) == 1:
+                ctx.holds("REUSEOLD", key, f.where(line), "whether the old element is released depends only on `%s`" % next(iter(vars_)), nontrivial=True)
+            else:
+                ctx.violated("REUSEOLD", key, f.where(line), "the release of the old element is conditioned on `%s`: an existing annotation can be overwritten in place and keep its old length" % render(g[1])[:80])
+    ctx.floor("REUSEOLD", 2, n, "(routines that replace an existing annotation)")
+    return n
